@@ -34,7 +34,7 @@ EXPLANATION = (
     'Unicode, Boolean, Float and Decimal are evaluated by a whitelisted interpreter on representative values (huge '
     "ints, NaN/inf/-0.0, Decimal specials, non-BMP text); ListOf framing equals its parser's format, AmpList and "
     'toBox/fromBox use the same keys both ways. DateTime: format string, slice table, sign index and length check '
-    'describe one 32-character layout and the UTC-offset arithmetic is evaluated for 13 offsets. Not decided: Path '
+    'describe one 32-character layout and the UTC-offset arithmetic is evaluated for 18 offsets (sub-hour ones included). Not decided: Path '
     'and DateTime date-field value equality, TLS and protocol switching.'
 )
 ASSUMPTIONS = [
@@ -253,6 +253,23 @@ def check_serialize(ctx, mod, consts, reader_fmt: str):
                           witness=g.describe(wit))
             else:
                 ctx.violation("box/refuses-non-bytes", cons + f" | {what}", f"a str {what} reaches the wire writer without being refused")
+    # the guards above test the ORIGINAL key and value: neither may be rebound (coerced) inside the pair loop
+    coerced = False
+    for st in ast.walk(loop):
+        if st is loop:
+            continue
+        stored = set()
+        if isinstance(st, (ast.Assign, ast.AugAssign, ast.AnnAssign, ast.For, ast.With, ast.NamedExpr)):
+            tg = st.targets if isinstance(st, ast.Assign) else ([st.target] if hasattr(st, "target") else [i.optional_vars for i in getattr(st, "items", []) if i.optional_vars is not None])
+            stored = {x.id for t in tg for x in ast.walk(t) if isinstance(x, ast.Name) and isinstance(x.ctx, ast.Store)}
+        for nm, what in ((kn, "key"), (vn, "value")):
+            if nm in stored:
+                coerced = True
+                ctx.violation("box/no-coercion", ctx.construct(q, st if not isinstance(st, ast.For) else f"for {src(st.target)} in {src(st.iter)}:") + f" | {what}",
+                              f"the {what} is replaced by `{src(getattr(st, 'value', st))[:80]}` before it is measured and written: a conversion such as bytes(7) (seven NUL bytes), "
+                              "bytes([1, 2, 3]) or bytes(True) turns a non-bytes value that must be refused into a silent mis-serialisation")
+    if not coerced:
+        ctx.ok("box/no-coercion", q + " | <pair loop scanned>", f"{kn}, {vn} are only read inside the loop")
     # lower bound on the key length: an empty key IS the terminator
     low = lin_expect({klen: 1}, 1)
     missing = []
@@ -266,6 +283,39 @@ def check_serialize(ctx, mod, consts, reader_fmt: str):
     ctx.check(not missing, "box/key-length-lower-bound", q + " | <empty key>",
               "AmpBox({b'': b'x'}).serialize() is accepted: the zero-length key is written as b'\\x00\\x00', which the reader (proto_key) "
               "takes as the end of the box, so the rest of this box and the next box are mis-framed")
+
+
+def check_serialize_refusals(ctx, mod, consts):
+    """serialize() is interpreted (whitelisted interpreter) on one-pair boxes holding a non-bytes key or value: each must raise,
+    i.e. return nothing to write; a plain bytes box must give the documented wire form."""
+    f = ctx.func(AMP, "AmpBox.serialize")
+    q = QA + ".AmpBox.serialize"
+    ev = MiniEval(mod, consts=consts)
+    k, out = run_eval(lambda: ev.func(f, [{b"k": b"v"}]))
+    if k == "unsupported":
+        _fail(f"AmpBox.serialize uses a construct outside the interpreted subset: {out}")
+    ctx.check(k == "value" and out == b"\x00\x01k\x00\x01v\x00\x00", "box/evaluated-wire-form", q + " | {b'k': b'v'}",
+              f"AmpBox({{b'k': b'v'}}).serialize() evaluates to {out!r} ({k}); the wire form is b'\\x00\\x01k\\x00\\x01v\\x00\\x00'")
+    samples = [("int", 7), ("bool", True), ("None", None), ("float", 1.5), ("tuple", (1, 2)), ("str", "text"), ("list", [1, 2, 3]), ("dict", {"a": 1}), ("int 0", 0)]
+    for pos in ("key", "value"):
+        bad = None
+        n = 0
+        for label, v in samples:
+            if pos == "key":
+                try:
+                    box = {v: b"v"}
+                except TypeError:
+                    continue      # unhashable: cannot be a key at all
+            else:
+                box = {b"k": v}
+            ev = MiniEval(mod, consts=consts)
+            k, out = run_eval(lambda: ev.func(f, [box]))
+            if k == "unsupported":
+                _fail(f"AmpBox.serialize uses a construct outside the interpreted subset: {out}")
+            n += 1
+            if k != "raised":
+                bad = bad or f"AmpBox({box!r}).serialize() does not raise: it returns {out!r}, i.e. a {label} {pos} is silently mis-serialised instead of being refused"
+        ctx.check(bad is None, "box/refuses-non-bytes-evaluated", q + f" | non-bytes {pos}", bad or "", detail=f"{n} non-bytes {pos}s, each must raise")
 
 
 # ---------------------------------------------------------------------------------------------------------------
@@ -648,6 +698,13 @@ def check_arguments(ctx, mod, consts):
         bmod = ctx.mod(BASIC)
         pc = bmod.find(parser_cls) if parser_cls else None
         pfmt = class_const(bmod, pc, "structFormat", {}) if isinstance(pc, ast.ClassDef) else None
+        wfmt = lay[0][1] if len(lay) == 2 and lay[0][0] == "len" else None
+        if pfmt is None:
+            # the reader does not use a *StringReceiver: take the format of its own unpack() calls (the evaluated round trip below decides the rest)
+            ufm = [const_eval(c.args[0], consts) for c in ast.walk(fs) if isinstance(c, ast.Call) and call_name(c) in ("unpack", "struct.unpack") and c.args and isinstance(c.args[0], ast.Constant)]
+            if len(set(ufm)) != 1:
+                _fail("ListOf.fromString: neither a *StringReceiver parser nor a single constant unpack() format was found")
+            pfmt, parser_cls = ufm[0], "inline unpack"
         ok = len(lay) == 2 and lay[0][0] == "len" and lay[1][0] == "raw" and lay[0][2] == lay[1][1] and lay[0][1] == pfmt
         ctx.check(ok, "argument/list-framing", q + " | <element framing>",
                   f"ListOf.toString writes {lay!r} per element; ListOf.fromString parses with {parser_cls} (format {pfmt!r}): each element must be its "
@@ -658,9 +715,35 @@ def check_arguments(ctx, mod, consts):
                       len(elem.args) == 1 and src(elem.args[0]) == loops[0].target.id, "argument/list-framing", q + " | <element encoder>",
                       "list elements are not encoded with self.elementType.toString(element)")
         dec = [n for n in ast.walk(fs) if isinstance(n, ast.Attribute) and src(n) == "self.elementType.fromString"]
-        feed = [c for c in ast.walk(fs) if isinstance(c, ast.Call) and call_attr(c) == "dataReceived" and [src(a) for a in c.args] == [fs.args.args[1].arg]]
-        ctx.check(bool(dec) and bool(feed), "argument/list-framing", q + " | <element decoder>",
-                  "ListOf.fromString does not feed the whole string to the length-prefix parser and decode each element with self.elementType.fromString")
+        ctx.check(bool(dec), "argument/list-framing", q + " | <element decoder>", "ListOf.fromString does not decode each element with self.elementType.fromString")
+
+    with ctx.section("ListOf evaluated round trip"):
+        # toString/fromString interpreted on lists with empty elements in every position (an empty element is just a zero length prefix,
+        # also when it is the last thing in the value) and on nested lists
+        lo = classes.get("ListOf") or _fail("ListOf vanished")
+        S, I = classes.get("String"), classes.get("Integer")
+        if S is None or I is None:
+            _fail("String/Integer vanished")
+        cases = [("ListOf(String())", Inst(lo, elementType=Inst(S), optional=False),
+                  [[], [b""], [b"foo"], [b"foo", b""], [b"", b"foo"], [b"", b""], [b"a", b"", b"b"], [b"x" * 300, b"y"]]),
+                 ("ListOf(ListOf(Integer()))", Inst(lo, elementType=Inst(lo, elementType=Inst(I), optional=False), optional=False),
+                  [[[1, 2], []], [[], [3]], [[]], [[], []], [[10 ** 20]]])]
+        for label, inst, samples in cases:
+            bad = None
+            for v in samples:
+                ev = MiniEval(mod, consts=consts, extra_mods=[ctx.mod(BASIC)])
+                k1, wire = run_eval(lambda: ev.method(inst, "toString", [v]))
+                if k1 == "unsupported":
+                    _fail(f"ListOf.toString uses a construct outside the interpreted subset: {wire}")
+                if k1 != "value" or not isinstance(wire, bytes):
+                    bad = bad or f"{label}.toString({v!r}) gives {wire!r} ({k1})"
+                    continue
+                k2, back = run_eval(lambda: ev.method(inst, "fromString", [wire]))
+                if k2 == "unsupported":
+                    _fail(f"ListOf.fromString uses a construct outside the interpreted subset: {back}")
+                if k2 != "value" or back != v:
+                    bad = bad or f"{label}: {v!r} is encoded as {wire[:40]!r}{'..' if len(wire) > 40 else ''} and decoded as {back!r} ({k2})"
+            ctx.check(bad is None, "argument/list-round-trip", f"{QA}.ListOf | {label}", bad or "", detail=f"{len(samples)} lists, empty elements in first/middle/last position")
 
     # --- AmpList and toBox/fromBox key symmetry ----------------------------------------------------------------------------
     with ctx.section("AmpList / box keys"):
@@ -808,59 +891,60 @@ def check_datetime(ctx, mod, classes):
     idx = [n for n in ast.walk(fs) if isinstance(n, ast.Subscript) and isinstance(n.value, ast.Name) and n.value.id == fp and isinstance(n.slice, ast.Constant)]
     ctx.check(len(idx) == 1 and str_fields and idx[0].slice.value == str_fields[0][0][1], "datetime/layout", q + ".fromString | <sign index>",
               f"the writer puts the sign at character {str_fields[0][0][1] if str_fields else '?'}; the reader reads {src(idx[0]) if idx else 'nothing'}")
-    # UTC offset: minutes computed from the timedelta, split into sign / hours / minutes, re-joined by fromSignHoursMinutes
+    # UTC offset: minutes computed from the timedelta, split into sign / hours / minutes, re-joined by fromSignHoursMinutes.
+    # Every expression is expanded down to offset.days / offset.seconds and evaluated for concrete offsets.
     if len(int_fields) == 9 and str_fields:
         tdefs = single_defs(ts)
         ev = MiniEval(mod)
+        offs = [st.targets[0].id for st in statements(ts) if isinstance(st, ast.Assign) and len(st.targets) == 1 and isinstance(st.targets[0], ast.Name)
+                and isinstance(st.value, ast.Call) and call_attr(st.value) == "utcoffset"]
+        if len(offs) != 1:
+            _fail("DateTime.toString: `offset = <datetime>.utcoffset()` not found")
+        offv = offs[0]
+        odefs = {k: v for k, v in tdefs.items() if k != offv}
+        stores: Dict[str, int] = {}
+        for x in ast.walk(ts):
+            if isinstance(x, ast.Name) and isinstance(x.ctx, ast.Store):
+                stores[x.id] = stores.get(x.id, 0) + 1
+        for st in statements(ts):      # a, b = e1, e2  binds like two plain assignments
+            if isinstance(st, ast.Assign) and len(st.targets) == 1 and isinstance(st.targets[0], ast.Tuple) and isinstance(st.value, ast.Tuple) \
+                    and len(st.targets[0].elts) == len(st.value.elts):
+                for t, v in zip(st.targets[0].elts, st.value.elts):
+                    if isinstance(t, ast.Name) and stores.get(t.id) == 1:
+                        odefs[t.id] = v
         h_e, m_e = int_fields[7][1], int_fields[8][1]
-        mvars = sorted({x.id for x in ast.walk(h_e) if isinstance(x, ast.Name)} & {x.id for x in ast.walk(m_e) if isinstance(x, ast.Name)} & set(tdefs))
-        offdef = tdefs.get(mvars[0]) if len(mvars) == 1 else None
         g = ctx.cfg(ts)
+
+        def ev_off(e, env):
+            k, v = run_eval(lambda: ev.expr(attrs_to_names(expand(e, odefs), offv), env))
+            if k == "unsupported":
+                _fail(f"DateTime.toString: `{src(e)}` is outside the interpreted subset: {v}")
+            return k, v
+
         bad = None
-        if offdef is None:
-            bad = "the offset-in-minutes local shared by the hours and minutes operands was not found"
-        else:
-            mv = mvars[0]
-            off_names = sorted({x.value.id for x in ast.walk(offdef) if isinstance(x, ast.Attribute) and isinstance(x.value, ast.Name)})
-            for m in (-840, -720, -90, -60, -1, 0, 1, 59, 60, 90, 330, 720, 840):
-                secs = m * 60
-                days, seconds = secs // 86400, secs % 86400      # timedelta normal form
-                e = offdef
-                for nm in off_names:
-                    e = attrs_to_names(e, nm)
-                env = {f"{nm}__days": days for nm in off_names}
-                env.update({f"{nm}__seconds": seconds for nm in off_names})
-                env.update({f"{nm}__microseconds": 0 for nm in off_names})
-                k, got = run_eval(lambda: ev.expr(e, env))
-                if k != "value" or got != m:
-                    bad = bad or f"a UTC offset of {m} minutes (timedelta(days={days}, seconds={seconds})) is computed as {got!r} by `{src(offdef)}`"
-                    continue
-                # sign chosen on this path
-                sign = None
-                for st in sign_all:
-                    nodes = g.ids_of(st)
-                    for n in nodes:
-                        okp = True
-                        for t, lab in g.edge_guards(n):
-                            if not any(isinstance(x, ast.Name) and x.id == mv for x in ast.walk(g.node(t).ast)):
-                                continue  # a test about something else (naive datetime refused earlier)
-                            kk, tv = run_eval(lambda: ev.expr(g.node(t).ast, {mv: m}))
-                            if kk != "value":
-                                okp = None
-                                break
-                            if bool(tv) != (lab == "T"):
-                                okp = False
-                        if okp:
-                            sign = st.value.value
-                k1, hh = run_eval(lambda: ev.expr(h_e, {mv: m}))
-                k2, mm = run_eval(lambda: ev.expr(m_e, {mv: m}))
-                if sign is None or k1 != "value" or k2 != "value":
-                    bad = bad or f"offset {m}: sign/hours/minutes not evaluable ({sign!r}, {hh!r}, {mm!r})"
-                    continue
-                back = (hh * 60 + mm) * (-1 if sign == "-" else 1)
-                if not (0 <= hh <= 99 and 0 <= mm <= 59 and back == m):
-                    bad = bad or f"a UTC offset of {m} minutes is written as {sign}{hh:02d}:{mm:02d}, which the reader turns into {back} minutes"
-        ctx.check(bad is None, "datetime/offset-arithmetic", q + ".toString | <UTC offset>", bad or "", detail="13 offsets between -14:00 and +14:00")
+        for m in (-840, -720, -90, -61, -60, -59, -30, -1, 0, 1, 30, 59, 60, 61, 90, 330, 720, 840):
+            secs = m * 60
+            days, seconds = secs // 86400, secs % 86400      # timedelta normal form
+            env = {f"{offv}__days": days, f"{offv}__seconds": seconds, f"{offv}__microseconds": 0, offv: "<timedelta>"}
+            sign = None
+            for st in sign_all:
+                for n in g.ids_of(st):
+                    okp = True
+                    for t, lab in g.edge_guards(n):
+                        kk, tv = ev_off(g.node(t).ast, env)
+                        if kk != "value" or bool(tv) != (lab == "T"):
+                            okp = False
+                    if okp:
+                        sign = st.value.value
+            k1, hh = ev_off(h_e, env)
+            k2, mm = ev_off(m_e, env)
+            if sign is None or k1 != "value" or k2 != "value" or not isinstance(hh, int) or not isinstance(mm, int):
+                bad = bad or f"a UTC offset of {m} minutes: sign {sign!r}, hours {hh!r}, minutes {mm!r} (the format needs one sign character and two integers)"
+                continue
+            back = (hh * 60 + mm) * (-1 if sign == "-" else 1)
+            if not (0 <= hh <= 99 and 0 <= mm <= 59 and back == m):
+                bad = bad or f"a UTC offset of {m:+d} minutes (timedelta(days={days}, seconds={seconds})) is written as {sign}{hh:02d}:{mm:02d}, which the reader turns into {back:+d} minutes"
+        ctx.check(bad is None, "datetime/offset-arithmetic", q + ".toString | <UTC offset>", bad or "", detail="18 offsets between -14:00 and +14:00, sub-hour ones included")
     calls = [c for c in ast.walk(fs) if isinstance(c, ast.Call) and call_attr(c) == "fromSignHoursMinutes"]
     ctx.check(len(calls) == 1 and len(calls[0].args) == 2 and isinstance(calls[0].args[1], ast.Starred) and src(calls[0].args[1].value).endswith("[7:]"), "datetime/layout",
               q + ".fromString | <tz fields>", "the two last integer fields are not passed as hours, minutes to fromSignHoursMinutes(sign, hours, minutes)")
@@ -878,6 +962,8 @@ def check(ctx):
         _fail("Int16StringReceiver.structFormat is not a constant string")
     with ctx.section("AmpBox.serialize"):
         check_serialize(ctx, mod, consts, reader_fmt)
+    with ctx.section("AmpBox.serialize refusals (evaluated)"):
+        check_serialize_refusals(ctx, mod, consts)
     with ctx.section("BinaryBoxProtocol reader"):
         check_reader(ctx, mod, consts, reader_fmt)
     with ctx.section("IntNStringReceiver framing"):
@@ -894,6 +980,10 @@ MUTANTS = [
     Mutant("overlong-key-skipped-silently", AMP, "            if len(k) > MAX_KEY_LENGTH:\n                raise TooLong(True, True, k, None)\n",
            "            if len(k) > MAX_KEY_LENGTH:\n                continue\n", expect_rule="box/key-length-upper-bound"),
     Mutant("unicode-value-check-on-key-twice", AMP, "            if type(v) == str:\n", "            if type(k) == str:\n", expect_rule="box/refuses-non-bytes"),
+    Mutant("pairs-normalised-with-bytes-constructor", AMP, "            if len(k) > MAX_KEY_LENGTH:\n                raise TooLong(True, True, k, None)\n",
+           "            k = bytes(k)\n            v = bytes(v)\n            if len(k) > MAX_KEY_LENGTH:\n                raise TooLong(True, True, k, None)\n", expect_rule="box/no-coercion"),
+    Mutant("values-coerced-when-emitted", AMP, "                w(kv)\n", "                w(bytes(kv))\n", expect_rule="box/refuses-non-bytes-evaluated"),
+    Mutant("items-coerced-before-loop", AMP, "        i = sorted(self.items())\n", "        i = sorted((bytes(a), bytes(b)) for a, b in self.items() if type(a) != str and type(b) != str)\n", expect_rule=None),
     Mutant("value-before-key", AMP, "            for kv in k, v:\n", "            for kv in v, k:\n", expect_rule="box/wire-layout"),
     Mutant("signed-length-prefix", AMP, '                w(pack("!H", len(kv)))\n', '                w(pack("!h", len(kv)))\n', expect_rule="box/wire-layout"),
     Mutant("terminator-only-for-nonempty", AMP, '        w(pack("!H", 0))\n        return b"".join(L)\n', '        if L:\n            w(pack("!H", 0))\n        return b"".join(L)\n',
@@ -928,6 +1018,10 @@ MUTANTS = [
     Mutant("datetime-hours-not-absolute", AMP, "            abs(minutesOffset) // 60,\n", "            minutesOffset // 60,\n", expect_rule="datetime/offset-arithmetic"),
     Mutant("decimal-via-float-repr", AMP, '            return str(inObject).encode("ascii")\n        raise ValueError("amp.Decimal can only encode instances of decimal.Decimal")\n',
            '            return str(float(inObject)).encode("ascii")\n        raise ValueError("amp.Decimal can only encode instances of decimal.Decimal")\n', expect_rule="argument/value-round-trip"),
+    Mutant("datetime-sign-from-hour-part", AMP, "        if minutesOffset > 0:\n", "        if minutesOffset // 60 > 0:\n", expect_rule="datetime/offset-arithmetic"),
+    Mutant("listof-reader-stops-before-trailing-empty-element", AMP, "        strings = []\n        parser = Int16StringReceiver()\n        parser.stringReceived = strings.append\n        parser.dataReceived(inString)\n",
+           "        strings = []\n        pos = 0\n        while pos + 2 < len(inString):\n            (n,) = unpack(\"!H\", inString[pos : pos + 2])\n            strings.append(inString[pos + 2 : pos + 2 + n])\n            pos += 2 + n\n",
+           more=[(AMP, "from struct import pack\n", "from struct import pack, unpack\n")], expect_rule="argument/list-round-trip"),
     Mutant("datetime-sign-index", AMP, "        sign = s[26]\n", "        sign = s[25]\n", expect_rule="datetime/layout"),
     Mutant("frombox-raw-key", AMP, "        nk = _wireNameToPythonIdentifier(name)\n", "        nk = nativeString(name)\n", expect_rule="argument/box-keys"),
 ]
@@ -944,5 +1038,12 @@ SILENT = [
     Silent("f30-repaired-empty-key-refused", AMP, "            if len(k) > MAX_KEY_LENGTH:\n", "            if len(k) < 1 or len(k) > MAX_KEY_LENGTH:\n"),
     Silent("f30-repaired-truthiness", AMP, "            if len(k) > MAX_KEY_LENGTH:\n", "            if not k:\n                raise TooLong(True, True, k, None)\n            if len(k) > MAX_KEY_LENGTH:\n"),
     Silent("datetime-sign-ge", AMP, "        if minutesOffset > 0:\n", "        if minutesOffset >= 0:\n"),
+    Silent("explicit-bytes-test-added", AMP, "            if len(k) > MAX_KEY_LENGTH:\n                raise TooLong(True, True, k, None)\n",
+           "            if not isinstance(k, (bytes, bytearray)) or not isinstance(v, (bytes, bytearray)):\n                raise TypeError(\"keys and values must be bytes\")\n            if len(k) > MAX_KEY_LENGTH:\n                raise TooLong(True, True, k, None)\n"),
+    Silent("listof-inline-reader-correct", AMP, "        strings = []\n        parser = Int16StringReceiver()\n        parser.stringReceived = strings.append\n        parser.dataReceived(inString)\n",
+           "        strings = []\n        pos = 0\n        while pos + 2 <= len(inString):\n            (n,) = unpack(\"!H\", inString[pos : pos + 2])\n            strings.append(inString[pos + 2 : pos + 2 + n])\n            pos += 2 + n\n",
+           more=[(AMP, "from struct import pack\n", "from struct import pack, unpack\n")]),
+    Silent("datetime-offset-split-first", AMP, "        minutesOffset = (offset.days * 86400 + offset.seconds) // 60\n", "        minutesOffset = (offset.days * 86400 + offset.seconds) // 60\n        tzHours, tzMinutes = abs(minutesOffset) // 60, abs(minutesOffset) % 60\n",
+           more=[(AMP, "            abs(minutesOffset) // 60,\n            abs(minutesOffset) % 60,\n", "            tzHours,\n            tzMinutes,\n")], allow_error=False),
     Silent("boolean-ifexp", AMP, '        if inObject:\n            return b"True"\n        else:\n            return b"False"\n', '        return b"True" if inObject else b"False"\n'),
 ]
